@@ -288,6 +288,11 @@ def cases(sh):
                 gps2 = "<" + ps + ">"
             gr = b.mk("GroupRule", name=i, generic_params=gp2, is_group_choice_alternate=alt, entry=ge[0])
             add("Rule::Group alt=%s generic=%s" % (alt, gen), (b.mk("Rule::Group", rule=gr), s + gps2 + (" //= " if alt else " = ") + ge[1]))
+    # ---- a literal whose content contains a line break, inside the group layouts that re-flow their entries
+    for nch in (2, 3, 4):
+        lit = (b.mk("Type2::UTF8ByteString", value=("str", "x\ny")), "'x\ny'")
+        cs = [[sh.entry_vmk(sh.occ(None), sh.key_bare("k%d" % i), sh.type_(sh.type1(lit if i == 0 else sh.t2_name("int"))))] for i in range(nch)]
+        add("Group %d choices, byte string with line break" % nch, sh.group(*cs))
     # ---- comments attached (the code around them must print unchanged; see also C16)
     def cm(txt):
         return some(("enum", "Comments", [MutList([("str", txt)])]))
@@ -457,7 +462,82 @@ def r_text(ctx, tier):
                                   "%s with value %r prints %s: %s" % (kind, val, got, why))
 
 
+def r_bytes(ctx):
+    import itertools
+    import pestg
+    rid = "C06.bytes"
+    ctx.rule(rid, "byte-string literals in the quoted form: for every content over an alphabet of ordinary characters, both quotes, backslash, "
+                  "space, tab and line feed (all strings up to length 2 plus longer samples) the interpreted Display body of "
+                  "Type2::UTF8ByteString prints a literal that the crate's own grammar (bytes_value, PEG semantics) reads back with the same "
+                  "content; and the literal survives unchanged inside every group layout (1-3 choices, short and long) — a printer that "
+                  "post-processes the rendered text must not touch literal content", floor=40)
+    f = ctx.facts
+    world = fm.World(f)
+    b = Builder(f)
+    sh = Shapes(b)
+    m = pestg.Matcher(f.grammar())
+    line = world.display["Type2"].line
+    alphabet = ["a", "'", "\\", "\n", " ", "\t", "\""]
+    values = ["".join(t) for n in range(0, 3) for t in itertools.product(alphabet, repeat=n)] + ["x\ny", "it's", "a  b", "tab\there"]
+    seen = set()
+    for val in values:
+        node = b.mk("Type2::UTF8ByteString", value=("str", val))
+        name = "UTF8ByteString %r" % val
+        try:
+            got = fm.render_node(world, node)
+        except Unknown as e:
+            ctx.incomplete_msg(rid, "%s: %s" % (name, e))
+            continue
+        ctx.site(rid, name, AST, line, None)
+        try:
+            ok = m.match("bytes_value", got)
+        except pestg.Unsupported as e:
+            raise vf.Incomplete("matcher: %s" % e)
+        inner = got[1:-1] if got[:1] == "'" and got[-1:] == "'" else (got[2:-1] if got[:2] == 'h"' else None)
+        if got[:2] == "h'" and got[-1:] == "'":
+            try:
+                inner = bytes.fromhex(got[2:-1]).decode()       # base16: the same bytes in another spelling
+            except ValueError:
+                inner = None
+        why = None
+        if not ok:
+            why = "is not a byte-string literal of the crate's grammar"
+        elif inner != val:
+            why = "reads back with content %r" % inner
+        if why:
+            cls = "quote" if "'" in val else "other"
+            if cls not in seen:
+                seen.add(cls)
+                ctx.violation(rid, "leaf|%s" % cls, AST, line, "Type2::UTF8ByteString with content %r prints %r, which %s" % (val, got, why))
+    # the literal inside group layouts
+    for val in ("x\ny", "a  b", "a\tb"):
+        lit = (b.mk("Type2::UTF8ByteString", value=("str", val)), "'" + val + "'")
+        leaf = fm.render_node(world, lit[0])
+        for layout, choices in (("1 choice", 1), ("2 choices", 2), ("3 choices", 3), ("4 choices", 4)):
+            for extra in (0, 3):
+                cs = []
+                for i in range(choices):
+                    es = [sh.entry_vmk(sh.occ(None), sh.key_bare("k%d" % i), sh.type_(sh.type1(lit if i == 0 else sh.t2_name("int"))))]
+                    es += [sh.entry_tgn(sh.occ(None), "e%d" % j) for j in range(extra)]
+                    cs.append(es)
+                g = sh.group(*cs)
+                name = "Group %s, %d entries each, literal %r" % (layout, 1 + extra, val)
+                try:
+                    got = fm.render_node(world, g[0])
+                except Unknown as e:
+                    ctx.incomplete_msg(rid, "%s: %s" % (name, e))
+                    continue
+                ctx.site(rid, name, AST, world.display["Group"].line, None)
+                if leaf not in got:
+                    key = "context|%s" % ("newline" if "\n" in val else "space" if "  " in val else "tab")
+                    if key not in seen:
+                        seen.add(key)
+                        ctx.violation(rid, key, AST, world.display["Group"].line, "%s prints %r: the literal %r is not in the output unchanged — the group "
+                                      "printer rewrites the rendered text of its entries" % (name, got, leaf))
+
+
 def run(ctx):
     ctx.guarded("C06.text", lambda c: r_text(c, c.tier))
     ctx.guarded("C06.node", r_node)
+    ctx.guarded("C06.bytes", r_bytes)
     ctx.guarded("C06.valuekind", r_valuekind)
